@@ -52,10 +52,21 @@ class C15(Property):
         for _ in range(30 if thorough else 8):
             to = rng.choice([10, 20, 60, 130])
             s = nu.Scenario()
-            s.node(1, mode=rng.choice(["tun-router", "tap-switch"]), pt=to, claims=["0a000100/24"])
-            s.node(2, mode="tun-router", pt=to, claims=["0a000200/24"])
+            tap = rng.random() < 0.5
+            if tap:
+                # learning switches without claims: the silent peer's routes are learned addresses only
+                s.node(1, mode="tap-switch", pt=to)
+                s.node(2, mode="tap-switch", pt=to)
+            else:
+                s.node(1, mode="tun-router", pt=to, claims=["0a000100/24"])
+                s.node(2, mode="tun-router", pt=to, claims=["0a000200/24"])
             s.add("C.2.1", "A")
             s.tick(rng.randrange(1, to + 5))
+            if tap:
+                for k in range(rng.randrange(1, 4)):
+                    s.add("P.2.%s" % nu.eth_frame(nu.mac(1) if k % 2 else b"\xff" * 6, nu.mac(20 + k)), "A", "O.1")
+            else:
+                s.add("P.1.%s" % nu.ipv4_packet(nu.node_ip(1), nu.node_ip(2, 7)), "A", "O.2")   # cached routing decision
             for _ in range(to + 4):
                 s.t += 1
                 s.add("T.%d" % s.t, "H.1", "S.1")      # only node 1 lives; nothing is delivered
